@@ -4,6 +4,8 @@ LIST-MULT      ``[Obj()] * n`` (or ``[[]] * n``) makes n references to ONE objec
 DEFAULT-ALIAS  ``x = param or []`` / ``x = param if param is not None else []`` defaults a missing argument, but when the argument IS
                given ``x`` is the caller's object - an in-place update of ``x`` afterwards (``x += ...``, ``x.append``, ``x[k] = ...``)
                rewrites the caller's data (a result that was already returned, a request that will be analysed again).
+OR-DEFAULT     ``acc = acc or {}`` on a parameter that some caller passes in to be filled (the call's result is discarded): an EMPTY accumulator
+               is falsy, so the callee fills a new object and the caller never sees it.
 ENUM-FORM      ``text == SomeEnum.MEMBER`` is always False for a plain ``Enum`` (a member never equals its value); the branch it guards
                is dead for every input.  Reported only when the other operand is provably text: a string literal, a ``.value``
                attribute, or a field declared ``str`` on a resolved class.
@@ -95,6 +97,48 @@ def check_default_alias(ctx: CheckContext, p: Program, r: Resolver, funcs: List[
     return n
 
 
+def check_or_default_accumulator(ctx: CheckContext, p: Program, r: Resolver, funcs: List[FuncInfo], rule: str = "OR-DEFAULT") -> int:
+    ctx.rule(rule, "a container parameter that callers pass in to be FILLED (a call whose result is discarded) is not defaulted by truthiness (`acc = acc or {}`): "
+                   "an empty accumulator is falsy, the callee fills a new object and the caller's stays empty")
+    n = 0
+    for f in funcs:
+        if isinstance(f.node, ast.Lambda):
+            continue
+        params = [a.arg for a in f.params]
+        for nd in body_nodes(f):
+            if not (isinstance(nd, ast.Assign) and len(nd.targets) == 1 and isinstance(nd.targets[0], ast.Name) and isinstance(nd.value, ast.BoolOp)
+                    and isinstance(nd.value.op, ast.Or) and len(nd.value.values) == 2 and isinstance(nd.value.values[0], ast.Name)
+                    and nd.value.values[0].id in params and _fresh_literal(nd.value.values[1])):
+                continue
+            prm, loc = nd.value.values[0].id, nd.targets[0].id
+            fills = any((isinstance(x, ast.Call) and isinstance(x.func, ast.Attribute) and x.func.attr in _MUTATORS and isinstance(x.func.value, ast.Name)
+                         and x.func.value.id == loc)
+                        or (isinstance(x, (ast.Assign, ast.AugAssign)) and any(isinstance(t, ast.Subscript) and isinstance(t.value, ast.Name) and t.value.id == loc
+                                                                                 for t in (x.targets if isinstance(x, ast.Assign) else [x.target])))
+                        for x in body_nodes(f))
+            if not fills:
+                continue
+            # call sites that hand an accumulator in and discard the result
+            sites = []
+            pos = f.pos_params.index(prm) if prm in f.pos_params else None
+            off = 1 if (f.cls is not None and f.parent is None and not f.is_static) else 0
+            for g in p.all_funcs:
+                if isinstance(g.node, ast.Lambda):
+                    continue
+                for st in body_nodes(g):
+                    if isinstance(st, ast.Expr) and isinstance(st.value, ast.Call) and f in r.resolve_call(g, st.value):
+                        c = st.value
+                        given = any(k.arg == prm for k in c.keywords) or (pos is not None and pos - off < len(c.args) and pos - off >= 0)
+                        if given:
+                            sites.append((g, c))
+            n += 1
+            ok = not sites
+            ctx.ob(rule, f"{f.qualname}:{prm}", f"{f.module.relpath}:{nd.lineno}", ok,
+                   "" if ok else f"`{ast.unparse(nd)}` replaces an EMPTY '{prm}' by a new object, but {sites[0][0].name} (line {sites[0][1].lineno}) passes its own accumulator and "
+                                 f"discards the result: whatever {f.name} adds while the accumulator is still empty is lost to the caller")
+    return n
+
+
 def _is_plain_enum(r: Resolver, ci: ClassInfo) -> bool:
     bases = [b.split(".")[-1] for b in r.ext_bases(ci)]
     return any(b in ("Enum", "Flag") for b in bases) and not any(b in ("str", "int", "StrEnum", "IntEnum") for b in bases)
@@ -158,4 +202,5 @@ def check_enum_form(ctx: CheckContext, p: Program, r: Resolver, funcs: List[Func
 
 
 def check_all(ctx: CheckContext, p: Program, r: Resolver, funcs: List[FuncInfo]) -> int:
-    return check_list_multiplication(ctx, p, r, funcs) + check_default_alias(ctx, p, r, funcs) + check_enum_form(ctx, p, r, funcs)
+    return check_list_multiplication(ctx, p, r, funcs) + check_default_alias(ctx, p, r, funcs) + check_enum_form(ctx, p, r, funcs) \
+        + check_or_default_accumulator(ctx, p, r, funcs)
